@@ -85,14 +85,10 @@ def binArith (op : BinOp) (x y : N) : R N :=
   | .div => .ok (Num.div x y)
   | .intDiv => ints fun a b => if b = 0 then .error .error else .ok (wrap64 (Int.tdiv a b))
   | .mod =>
-    -- `math.Mod` on integral operands; a zero result carries the sign of the dividend (IEEE -0)
-    match Num.toInt? x, Num.toInt? y with
-    | some a, some b =>
-      if b = 0 then .error .oom
-      else
-        let r := Int.tmod a b
-        if r = 0 ∧ a < 0 then .ok (Num.neg (Num.ofInt 0)) else .ok (Num.ofInt r)
-    | _, _ => .error .oom
+    -- `math.Mod`; a NaN result (zero divisor, infinities) is out of model
+    match Num.fmod x y with
+    | some r => .ok r
+    | none => .error .oom
   | .bitAnd => ints fun a b => .ok (BitVec.ofInt 64 a &&& BitVec.ofInt 64 b).toInt
   | .bitOr => ints fun a b => .ok (BitVec.ofInt 64 a ||| BitVec.ofInt 64 b).toInt
   | .bitXor => ints fun a b => .ok (BitVec.ofInt 64 a ^^^ BitVec.ofInt 64 b).toInt
